@@ -24,8 +24,8 @@ MANIFEST_ENTRY = {
           "array that forms a proper tree, every initial state and fuel, a successful run of the worklist model of build() is the "
           "tree compiler's result) carries them to BuilderWL.build: C20_frame_full_builder, C20_own_jump_refs_builder, "
           "C20_relocated_full_builder (a build after another program and the build of the same tree into the empty object are "
-          "related by Spec.Reloc.relocated), and C20_relocated_full_parsed states relocation + frame for every token sequence the parser model accepts. Only the error-class statement C20_no_foreign_jump_all_trees stays on the tree "
-          "compiler (for build() it is bounded + checked on every run). The step 'the runtime commutes with relocation' is covered by "
+          "related by Spec.Reloc.relocated), and C20_relocated_full_parsed states relocation + frame for every token sequence the parser model accepts. The error-class statement has its own proof on the model: C20_no_foreign_jump_builder (for EVERY node "
+          "array, proper tree or not, build never returns the foreign-write error). The step 'the runtime commutes with relocation' is covered by "
           "the differential runs only. On every run: sequences of 2..4 generated programs are "
           "built into one data object in every order with executions interleaved, on both data implementations; every build is "
           "compared with the build alone (relocated), with the builder model run from the same initial state, every earlier "
